@@ -1,10 +1,11 @@
 //@ unit: C18.try_into_brkpt
 //@ props: C18
 //@ source: src/debugger/breakpoint.rs
-//@ fn: UninitBreakpoint::try_into_brkpt, RelocatedAddress::into_global, GlobalAddress::relocate_to_segment
+//@ fn: UninitBreakpoint::try_into_brkpt, RelocatedAddress::into_global, GlobalAddress::relocate_to_segment, RequirementsResolver::relocation_addr
 //@ shim: src/debugger/breakpoint.rs :: struct UninitBreakpoint :: addr: Address, pid: Pid, number: u32, place: Option<PlaceDescriptorOwned>, r#type: BrkptType, debug_info_file: Option<PathBuf>
 //@ assume: load model: every mapped object has one load offset `off(obj)`; `obj_of(a)` is the object whose region contains the run-time address a (DwarfRegistry::find_range: unit C18.find_range); Debugee::mapping_offset_for_pc(a) = off(obj_of(a)), mapping_offset_for_file(d) = off(d.id), debug_info(a).id = obj_of(a), program_debug_info().id = MAIN, debug_info_from_file(p).id = file_obj(p); remove_vas_region_offset / relocate are exact subtraction / addition (Kani unit C18.reloc)
 //@ assume: recorded precondition R_above: a run-time address is not below the load offset of its object (Verus lemma C18.find_range: offset <= address)
+//@ assume: (relocation_addr) DW_OP_addr operands of a location expression are link-time addresses of the object whose code is executing: they must be relocated with the load offset of the object that contains the focus pc
 //@ notcovered: place lookup for the new breakpoint (find_place_from_pc: C04 units), Breakpoint::new_inner, which templates are created before start, the deferred retry
 use vstd::prelude::*;
 verus! {
@@ -134,6 +135,20 @@ impl UninitBreakpoint {
 //@   outline O_err: `.ok_or(NoDebugInformation("breakpoint"))?` => `; let dwarf = outline_some_or_err(dwarf)?`
 //@   outline O_place: `dwarf .find_place_from_pc(global_addr)? .ok_or(PlaceNotFound(global_addr))? .to_owned()` => `outline_place_of(dwarf, global_addr)?`
 //@   outline O_path: `dwarf.pathname().into()` => `outline_path_of(dwarf)`
+//@ end
+}
+
+pub struct Location { pub pc: RelocatedAddress }
+pub struct ExplorationContext { pub loc: Location }
+impl ExplorationContext {
+    #[verifier::external_body] pub fn location(&self) -> (r: Location) ensures r.pc == self.loc.pc, { unimplemented!() }
+}
+pub struct RequirementsResolver<'a> { pub debugee: &'a Debugee }
+impl<'a> RequirementsResolver<'a> {
+//@ extract: impl RequirementsResolver / fn relocation_addr
+//@   file: src/debugger/debugee/dwarf/eval.rs
+//@   sig: fn relocation_addr(&self, ecx: &ExplorationContext) -> (r: Result<usize, Error>)
+//@   ensures E_reloc_base: r is Ok ==> r->Ok_0 == off(obj_of(ecx.loc.pc.0))
 //@ end
 }
 
